@@ -201,7 +201,12 @@ class Check:
         with lake_lock():
             from harness import translate
 
-            tr = translate.run(REPO, LEAN / "Gen", self.prop)
+            # every item is regenerated on every check (1 s): a theorem module may import another
+            # property's module (the CxxLinks integration layer), so all of lean/Gen must describe
+            # the tree under test.  VERIF_TRANSLATE_ONLY_OWN=1 restricts this to the property's own
+            # items (used only while several builders tested different trees concurrently).
+            only = self.prop if os.environ.get("VERIF_TRANSLATE_ONLY_OWN") == "1" else None
+            tr = translate.run(REPO, LEAN / "Gen", only)
             self.extra["translator"] = tr
             for item, st in tr.items():
                 if not st.get("ok"):
